@@ -196,7 +196,9 @@ Section WithVersion.
           let try (body : bytes) : option bytes :=
             let '(g1, r) := span (fun c => negb (N.eqb c 41)) body in
             match g1, r with
-            | _ :: _, 41%N :: 46%N :: ((_ :: _) as r2) => Some (g1 ++ 46%N :: r2)
+            | _ :: _, 41%N :: 46%N :: ((_ :: _) as r2) =>
+                (* .+ does not match a line feed and must reach the end of the text *)
+                if forallb (fun c => negb (N.eqb c 10)) r2 then Some (g1 ++ 46%N :: r2) else None
             | _, _ => None
             end in
           match try t1 with
